@@ -74,7 +74,8 @@ def domains():
 SET_OPS = [('add', 14), ('remove', 8), ('pop', 4), ('contains', 10), ('update', 3), ('clear', 1),
            ('union', 5), ('intersection', 5), ('difference', 5), ('symdiff', 4),
            ('ior', 2), ('iand', 2), ('isub', 2), ('ixor', 2),
-           ('issubset', 4), ('issuperset', 4), ('isdisjoint', 3), ('eq', 4), ('lt', 3), ('gt', 3),
+           ('issubset', 4), ('issuperset', 4), ('isdisjoint', 3), ('eq', 4), ('ne', 4), ('lt', 3), ('gt', 3),
+           ('copy', 3),
            ('getitem', 4), ('delitem', 3), ('len', 2), ('iter', 2)]
 
 
@@ -104,6 +105,7 @@ def gen_set_case(rng, dname, dom, maxops):
     weights = [w for _, w in SET_OPS]
     # cheap tracking of plausible contents (indices) just to steer generation
     hint = set(desc[0][1])
+    has_copy = False
     for _ in range(rng.randint(1, maxops)):
         o = rng.choices(names, weights)[0]
         if o in ('add', 'remove', 'contains'):
@@ -123,16 +125,22 @@ def gen_set_case(rng, dname, dom, maxops):
             desc.append([o, form, [gen_operand(rng, dom, hint) for _ in range(k)]])
         elif o in ('symdiff', 'ixor'):
             desc.append([o, rng.choice(['method', 'operator']), [rng.randrange(n) for _ in range(rng.randint(0, 5))]])
-        elif o in ('ior', 'iand', 'isub', 'isdisjoint', 'eq', 'lt', 'gt'):
+        elif o in ('ior', 'iand', 'isub', 'isdisjoint', 'eq', 'ne', 'lt', 'gt'):
             desc.append([o, gen_operand(rng, dom, hint)])
         elif o in ('issubset', 'issuperset'):
             desc.append([o, rng.choice(['method', 'operator']), gen_operand(rng, dom, hint)])
         elif o in ('getitem', 'delitem'):
             desc.append([o, rng.randint(-7, 7)])
+        elif o == 'copy':
+            desc.append([o, rng.choice(['copy', 'copy', 'intersection0', 'difference0', 'union0'])])
+            has_copy = True
         else:
             desc.append([o])
         if o in ('clear',):
             hint = set()
+        # once a copy exists, a third of the operations go to the copy (the original must not notice, and vice versa)
+        if has_copy and o != 'copy' and rng.random() < 0.35:
+            desc[-1] = ['oncopy', desc[-1]]
     return {'kind': 'set', 'domain': dname, 'ops': desc}
 
 
@@ -149,8 +157,7 @@ def exec_set_case(case):
     E = lambda i: dom.make(pool[i])
     C = lambda i: dom.canon(pool[i])
     total = dom.kind == 'total'
-    s = sortedset()
-    ref = set()
+    regs = {'s': [sortedset(), set()], 'c': [sortedset(), set()]}     # the set and its copy: [implementation, reference set]
     gops, nums, viols, plain = [], [], [], []
 
     def enc_items(xs):
@@ -212,6 +219,10 @@ def exec_set_case(case):
             bad(step, op, which + '_order', 'iteration not ascending: %r' % (c,))
 
     for step, od in enumerate(case['ops']):
+        reg = 's'
+        if od[0] == 'oncopy':
+            reg, od = 'c', od[1]
+        s, ref = regs[reg]
         o = od[0]
         out = None
         try:
@@ -320,12 +331,12 @@ def exec_set_case(case):
                 want = (ref <= oset) if o == 'issubset' else (ref >= oset)
                 if bool(r) != want:
                     bad(step, o, 'wrong', 'returned %r, sets say %r' % (r, want))
-            elif o in ('isdisjoint', 'eq', 'lt', 'gt'):
+            elif o in ('isdisjoint', 'eq', 'ne', 'lt', 'gt'):
                 obj, g, oset = mk_operand(od[1])
-                gop = {'isdisjoint': 'OIsDisjoint', 'eq': 'OEq', 'lt': 'OLt', 'gt': 'OGt'}[o] + ' (%s)' % g
-                r = {'isdisjoint': lambda: s.isdisjoint(obj), 'eq': lambda: s == obj, 'lt': lambda: s < obj, 'gt': lambda: s > obj}[o]()
+                gop = {'isdisjoint': 'OIsDisjoint', 'eq': 'OEq', 'ne': 'ONe', 'lt': 'OLt', 'gt': 'OGt'}[o] + ' (%s)' % g
+                r = {'isdisjoint': lambda: s.isdisjoint(obj), 'eq': lambda: s == obj, 'ne': lambda: s != obj, 'lt': lambda: s < obj, 'gt': lambda: s > obj}[o]()
                 out = ('RBool', bool(r))
-                want = {'isdisjoint': ref.isdisjoint(oset), 'eq': ref == oset, 'lt': ref < oset, 'gt': ref > oset}[o]
+                want = {'isdisjoint': ref.isdisjoint(oset), 'eq': ref == oset, 'ne': ref != oset, 'lt': ref < oset, 'gt': ref > oset}[o]
                 if r is NotImplemented or bool(r) != want:
                     bad(step, o, 'wrong', 'returned %r, sets say %r' % (r, want))
             elif o == 'getitem':
@@ -361,6 +372,15 @@ def exec_set_case(case):
                     out = ('RIndexError',)
                     if inrange:
                         bad(step, o, 'indexerror', 'IndexError for index %d of %d elements' % (od[1], n))
+            elif o == 'copy':
+                how = od[1]
+                gop = 'OCopy %s' % {'copy': 'ByCopy', 'intersection0': 'ByIntersection0', 'difference0': 'ByDifference0', 'union0': 'ByUnion0'}[how]
+                r = {'copy': s.copy, 'intersection0': s.intersection, 'difference0': s.difference, 'union0': s.union}[how]()
+                out = ('RItems', list(r))
+                check_result_set(step, o, r, set(ref))
+                if r is s:
+                    bad(step, o, 'same_object', '%s() returned the set itself' % how)
+                regs['c'] = [r, set(ref)]
             elif o == 'len':
                 gop = 'OLen'
                 r = len(s)
@@ -379,10 +399,14 @@ def exec_set_case(case):
                 raise
             bad(step, o, 'raises.' + type(e).__name__, 'unexpected %r' % (e,))
             break
-        items = list(s)
-        check_items(step, o, items, ref, 'state')
+        if o != 'copy':
+            regs[reg][0] = s
+            gop = ('OMain (%s)' if reg == 's' else 'OOnCopy (%s)') % gop
+        items, citems = list(regs['s'][0]), list(regs['c'][0])
+        check_items(step, o, items, regs['s'][1], 'state' if reg == 's' or o == 'copy' else 'original_changed_by_copy')
+        check_items(step, o, citems, regs['c'][1], 'state' if reg == 'c' or o == 'copy' else 'copy_changed_by_original')
         gops.append(gop)
-        nums.extend(enc_items(items) + enc_out(out))
+        nums.extend(enc_items(items) + enc_items(citems) + enc_out(out))
         plain.append([o, out[0] + ''.join(' %r' % (x,) for x in out[1:]), [repr(x) for x in items]])
     return gops, nums, viols, plain
 
